@@ -133,6 +133,25 @@ class C13(Prop):
             return self.gen_enum(rng, idx)
         nn = rng.choice([2, 2, 3])
         nodes, servers = gen.node_specs(nn, unix=rng.random() < 0.15)
+        resolver = {}
+        if rng.random() < 0.4:
+            # the same servers, spelled the other ways HashClient accepts: 'host:port', a bare host (default
+            # port), a host name, 'unix:/path'
+            for i, n in enumerate(nodes):
+                if "path" in n:
+                    if rng.random() < 0.6:
+                        servers[i] = E("unix:" + n["path"])
+                    continue
+                ip, port = n["addrs"][0]
+                form = rng.choice(["hostport", "bare", "name", "nameport", "tuple"])
+                if form == "hostport":
+                    servers[i] = E("%s:%d" % (ip, port))
+                elif form == "bare":
+                    servers[i] = E(ip)
+                elif form in ("name", "nameport"):
+                    host = "cache-%s" % "abc"[i]
+                    resolver[host] = [["inet", ip]]
+                    servers[i] = E(host if form == "name" else "%s:%d" % (host, port))
         names = [refhash.node_name(codec.dec(s)) for s in servers]
         ra = rng.choice([0, 1, 2])
         rt, dead = rng.choice([(1, 60), (0.5, 5), (2, 10), (0.5, 5)])
@@ -145,6 +164,8 @@ class C13(Prop):
             ck["key_prefix"] = E(b"p:")
         w = {"stack": "hash", "servers": servers, "nodes": nodes, "client_kwargs": ck,
              "knobs": {"recv_size": 4096}}
+        if resolver:
+            w["resolver"] = resolver
         # keys: every server owns at least one
         owned = {n: [] for n in names}
         j = 0
